@@ -275,6 +275,95 @@ def _cr_spec(cfg, i, path):
     return path.value in ('same', 'error')
 
 
+
+# ------------------------------------------------------------------ an observed attribute value is never silently replaced (bounded, end to end)
+_AM = None
+
+
+def amodel():
+    global _AM
+    if _AM is None:
+        db = orm.Database('sqlite', ':memory:')
+
+        class Thing(db.Entity):
+            id = orm.PrimaryKey(int)
+            qty = orm.Optional(int)
+            flag = orm.Optional(bool)
+            note = orm.Optional(str)
+            ratio = orm.Optional(float)
+            name = orm.Optional(str, nullable=True)
+            vol = orm.Optional(int, volatile=True)
+        db.generate_mapping(create_tables=True)
+        _AM = types.SimpleNamespace(db=db, Thing=Thing)
+    return _AM
+
+
+VALUES = {'ordinary': dict(qty=5, flag=True, note='text', ratio=1.5, name='nm'), 'boundary': dict(qty=0, flag=False, note='', ratio=0.0, name=''),
+          'missing': dict(qty=None, flag=None, note='', ratio=None, name=None)}
+FOREIGN = dict(qty=7, flag=1, note='changed', ratio=2.5, name='other')                      # what somebody else commits meanwhile
+HOW_KNOWN = ('loaded by key', 'loaded by a query', 'created, read, then flushed', 'created, read, then flushed by a query', 'modified, read, then flushed', 'created and flushed', 'created, flushed by a query', 'created and committed', 'modified and flushed', 'loaded then read through to_dict')
+REREAD = ('attribute again', 'after the row is selected again', 'after load()', 'after a query that returns the object')
+
+
+def _av_configs(tier):
+    return [dict(values=v, known=k, attr=a, reread=r) for v in VALUES for k in HOW_KNOWN for a in FOREIGN for r in REREAD]
+
+
+def _av_case(cfg, values):
+    M = amodel()
+
+    def setup(run): _reset()
+    def teardown(run):
+        try: orm.rollback()
+        except Exception: pass
+        _reset()
+
+    def call():
+        T = M.Thing; vals = VALUES[cfg['values']]; attr = cfg['attr']; known = cfg['known']
+        with orm.db_session:
+            M.db.execute('delete from Thing')
+            if not known.startswith('created'): T(id=1, vol=1, **vals)
+            T(id=2)
+        with orm.db_session:
+            if known == 'loaded by key': o = T[1]
+            elif known == 'loaded by a query': o = T.select(lambda t: t.id == 1).first()
+            elif known == 'created, read, then flushed': o = T(id=1, vol=1, **vals); early = getattr(o, attr); orm.flush()
+            elif known == 'created, read, then flushed by a query': o = T(id=1, vol=1, **vals); early = getattr(o, attr); T.select().count()
+            elif known == 'modified, read, then flushed':
+                o = T[1]
+                for k, v in vals.items(): setattr(o, k, v)
+                early = getattr(o, attr); orm.flush()
+            elif known == 'created and flushed': o = T(id=1, vol=1, **vals); orm.flush()
+            elif known == 'created, flushed by a query': o = T(id=1, vol=1, **vals); T.select().count()
+            elif known == 'created and committed': o = T(id=1, vol=1, **vals); orm.commit()
+            elif known == 'modified and flushed':
+                o = T[1]
+                for k, v in vals.items(): setattr(o, k, v)
+                o.vol = 2; orm.flush()
+            else: o = T[1]
+            if 'read, then' in known: first = early                                                # the value was OBSERVED before the flush; nothing reads it in between
+            else: first = o.to_dict()[attr] if known.endswith('to_dict') else getattr(o, attr)      # the value is OBSERVED
+            if first != vals[attr]: return 'the first read is already wrong: %r' % (first,)
+            if known in ('created and flushed', 'created, flushed by a query', 'modified and flushed') or True:
+                M.db.execute('update Thing set %s = $v where id = 1' % attr, {'v': FOREIGN[attr]})          # somebody else's committed change, as the next reload sees it
+            try:
+                r = cfg['reread']
+                if r == 'after the row is selected again': T.select()[:]
+                elif r == 'after load()': o.load()
+                elif r == 'after a query that returns the object': list(orm.select(t for t in T if t.id >= 1))
+                second = getattr(o, attr)
+            except core.UnrepeatableReadError:
+                second = 'error'
+            orm.rollback()
+            if second == 'error' or second == first: return 'ok'
+            return 'silently changed: %r -> %r' % (first, second)
+    return Case(call, {}, [], setup, teardown)
+
+
+def _av_spec(cfg, i, path):
+    return path.outcome == 'ret' and path.value == 'ok'
+
+
 CONTRACTS = [
     Contract('Attribute.db_set', 'pony.orm.core:Attribute.db_set', _ds_configs, _ds_case,
              [('observed_value_replaced_only_by_equal_value_else_error', _ds_spec)], allowed_exc=(core.UnrepeatableReadError,), replay=False),
@@ -286,4 +375,8 @@ CONTRACTS = [
                                      'pony.orm.core:Set.db_reverse_remove', 'pony.orm.core:Attribute.db_set'], _cr_configs, _cr_case,
              [('a_reload_never_changes_an_observed_collection_silently', _cr_spec)], level='bounded',
              bound='one one-to-many collection; 6 ways of observing it (however it became loaded), 4 foreign changes seen by the next reload'),
+    Contract('observed_attribute', ['pony.orm.core:Attribute.__get__', 'pony.orm.core:Entity._db_set_', 'pony.orm.core:Entity._update_dbvals_', 'pony.orm.core:Entity._save_created_',
+                                    'pony.orm.core:Entity._save_updated_', 'pony.orm.core:Entity.load', 'pony.orm.core:Attribute.load'], _av_configs, _av_case,
+             [('a_later_read_returns_the_observed_value_or_fails', _av_spec)], level='bounded',
+             bound='5 attribute types x ordinary / boundary (0, False, empty) / missing values x 10 ways the object became known (loaded, created, modified; flushed, committed) x 4 ways of reading again after a foreign change'),
 ]
